@@ -114,7 +114,7 @@ func (p *Program) groundObligations() []*Obligation {
 	p.groundDone = true
 	wls := p.loadWordLists()
 	var obls []*Obligation
-	allLen, allDistinct, allNows, allStable := true, true, true, true
+	facts := map[string]bool{}
 	hints := map[string]map[string]string{}
 	tagsData := []string{"C01", "C02", "C03", "C05", "C08", "C10"}
 	// G0: the wordlist package has no function that could edit the lists after initialisation
@@ -137,7 +137,6 @@ func (p *Program) groundObligations() []*Obligation {
 				why = wl.Bad
 			}
 			obls = append(obls, groundObl(lang+"/literal", tagsData, false, "wordlist."+lang+" is a composite literal of string literals", why))
-			allLen, allDistinct, allNows, allStable = false, false, false, false
 			continue
 		}
 		ws := wl.Words
@@ -146,7 +145,7 @@ func (p *Program) groundObligations() []*Obligation {
 		// G1 length
 		ok := len(ws) == 2048
 		obls = append(obls, groundObl(lang+"/len2048", []string{"C01", "C02", "C03", "C05", "C08", "C14"}, ok, "len(wordlist."+lang+") == 2048", fmt.Sprintf("len = %d", len(ws))))
-		allLen = allLen && ok
+		facts[lang+"/len"] = ok
 		// G2 distinct
 		seen := map[string]int{}
 		wit := ""
@@ -158,7 +157,7 @@ func (p *Program) groundObligations() []*Obligation {
 			seen[w] = i
 		}
 		obls = append(obls, groundObl(lang+"/distinct", []string{"C02", "C03", "C05", "C08", "C10", "C15"}, wit == "", "words of wordlist."+lang+" pairwise distinct", wit))
-		allDistinct = allDistinct && wit == ""
+		facts[lang+"/distinct"] = wit == ""
 		// G3..G5 non-empty, valid UTF-8, no white space
 		wit = ""
 		for i, w := range ws {
@@ -174,7 +173,7 @@ func (p *Program) groundObligations() []*Obligation {
 			}
 		}
 		obls = append(obls, groundObl(lang+"/nonempty-utf8-nospace", []string{"C02", "C03", "C08", "C09", "C10"}, wit == "", "every word of wordlist."+lang+" is non-empty valid UTF-8 without white space", wit))
-		allNows = allNows && wit == ""
+		facts[lang+"/nows"] = wit == ""
 		// G6 NFKD-stable
 		wit = ""
 		for i, w := range ws {
@@ -184,7 +183,7 @@ func (p *Program) groundObligations() []*Obligation {
 			}
 		}
 		obls = append(obls, groundObl(lang+"/nfkd-stable", []string{"C02", "C08", "C10", "C11"}, wit == "", "NFKD(w) == w for every word of wordlist."+lang, wit))
-		allStable = allStable && wit == ""
+		facts[lang+"/stable"] = wit == ""
 		// G7 equals the reference list
 		ref, err := os.ReadFile(filepath.Join(verifDir, "ref", "wordlists", refFileName(lang)))
 		wit = ""
@@ -210,7 +209,7 @@ func (p *Program) groundObligations() []*Obligation {
 		obls = append(obls, groundObl(lang+"/canonical", []string{"C01", "C08", "C17"}, wit == "", "wordlist."+lang+" equals ref/wordlists/"+refFileName(lang)+" byte for byte", wit))
 	}
 	// every exported list has a language constant of the same name and vice versa
-	p.listFacts = map[string]bool{"len": allLen, "distinct": allDistinct && allLen, "nows": allNows && allLen, "stable": allStable && allLen}
+	p.listFacts = facts
 	p.groundHints = hints
 	p.preludeCache = map[bool]string{}
 	p.groundObls = obls
